@@ -186,7 +186,9 @@ def child_sym(mod, cfg, schedule, opts, findings):
 
     if res["status"] == "exception":
         # an exception on a feasible path: candidate violation, to be replayed by the parent
-        res["claims"].append(dict(name="no_exception:" + res.get("exc_type", "?"), verdict="sat", trivial=False, models=[witness] if witness is not None else [], solver_s=0.0, known=None))
+        ename = "no_exception:" + res.get("exc_type", "?")
+        kn = next((f["id"] for f in findings if not f.get("region") and fnmatch.fnmatch(ename, f.get("claim", "*")) and _cfg_match(cfg, f.get("config"))), None)
+        res["claims"].append(dict(name=ename, verdict="sat", trivial=False, models=[witness] if witness is not None else [], solver_s=0.0, known=kn))
         res["stats"] = dict(E.stats, wall=time.time() - t0)
         return res
     if res["status"] == "unsupported":
@@ -522,6 +524,7 @@ def run_check(modname, tier, seed, only=None, mutations=None, write_evidence=Tru
     opts.update(getattr(premod, "OPTIONS", {}))
     if hasattr(premod, "options"):
         opts.update(premod.options(tier))
+    OBS_RTOL[0] = opts.get("obs_rtol", 1e-9)
     loader.install(exact_literal_modules=opts["exact_literal_modules"], mutations=mutations)
     import warnings
 
@@ -812,6 +815,9 @@ def _replay_shows(rp, cname):
     return False
 
 
+OBS_RTOL = [1e-9]
+
+
 def _compare_validation(rc, rp):
     diffs = []
     if rc["status"] != rp.get("status"):
@@ -845,7 +851,7 @@ def _close(x, y):
     if isinstance(x, bool) or isinstance(y, bool):
         return bool(x) == bool(y)
     try:
-        return abs(x - y) <= 1e-9 * max(1.0, abs(x), abs(y))
+        return abs(x - y) <= OBS_RTOL[0] * max(1.0, abs(x), abs(y))
     except TypeError:
         return x == y
 
